@@ -159,7 +159,7 @@ class EngineTheory(Theory):
         if other.sort == 'OptInt':
             return other.meta['none']
         if other.sort == 'Any':
-            return None
+            return '(any_none %s)' % other.e
         return None
 
     def coerce(self, ex, a, want, st):
